@@ -4,6 +4,7 @@ package c17
 import (
 	"encoding/json"
 	"fmt"
+	"strings"
 	"testing"
 
 	"github.com/paulsonkoly/chess-3/board"
@@ -157,7 +158,11 @@ func checkCase(c Case, rec *evid.Rec) error {
 	}
 	p = p.NormEP()
 	if c.UCI {
-		out, _ := eng.UCI([]string{"position fen " + p.FEN(), "eval"})
+		cmd := "position fen " + p.FEN()
+		if len(c.Moves) > 0 { // the same position reached through a move list: the driver's board carries a hash history
+			cmd = "position fen " + c.FEN + " moves " + strings.Join(c.Moves, " ")
+		}
+		out, _ := eng.UCI([]string{cmd, "eval"})
 		// the command prints the score in UCI notation: "cp <n>"
 		got, ok := eng.LastScore(out)
 		if !ok {
@@ -165,11 +170,14 @@ func checkCase(c Case, rec *evid.Rec) error {
 		}
 		pb, _ := mustBoard(&p)
 		if want := int(ev(pb)); got != want {
-			return fmt.Errorf("UCI `eval` printed %d, Eval() = %d for %s", got, want, p.FEN())
+			return fmt.Errorf("after %q UCI `eval` printed %d, Eval() = %d for %s", cmd, got, want, p.FEN())
 		}
 		if rec != nil {
 			rec.Eval(1)
 			rec.Class("uci_eval")
+			if len(c.Moves) > 0 {
+				rec.Class("uci_eval_after_move_list")
+			}
 		}
 		return nil
 	}
@@ -217,7 +225,7 @@ func minor(t *rapid.T) refchess.Pos {
 
 func TestC17(t *testing.T) {
 	evid.Main(t, "C17", func(rec *evid.Rec) {
-		rec.Rule("positions from suite/bench/synthetic (incl. promoted material) / motif roots and playouts, plus bare-king, insufficient-material and K+N+B v K classes of both colours; metamorphic relations with exact integer equality: Eval(b) == Eval(mirror(b)) (mirror built on the reference position: ranks flipped, colours, side, rights and en-passant mapped); Eval unchanged when rights / en-passant target / fullmove number / hash history differ (FEN-loaded vs reached by moves vs ParseFEN board); unchanged by intervening evaluations and by make+undo; UCI `eval` prints the same number. Non-trivial = position differs from its mirror and evaluates non-zero; distinct by placement+side+rights+ep+clock")
+		rec.Rule("positions from suite/bench/synthetic (incl. promoted material) / motif roots and playouts, plus bare-king, insufficient-material and K+N+B v K classes of both colours; metamorphic relations with exact integer equality: Eval(b) == Eval(mirror(b)) (mirror built on the reference position: ranks flipped, colours, side, rights and en-passant mapped); Eval unchanged when rights / en-passant target / fullmove number / hash history differ (FEN-loaded vs reached by moves vs ParseFEN board); unchanged by intervening evaluations and by make+undo; UCI `eval` prints the same number, also when the position was reached through a move list with recurrences (third occurrences included). Non-trivial = position differs from its mirror and evaluates non-zero; distinct by placement+side+rights+ep+clock")
 		rec.Assume("the mirror transformation is computed by the harness on verif/refchess positions")
 		rec.Rapid(t, "relations", evid.Pick(100000, 15000000), func(t *rapid.T) {
 			var c Case
@@ -246,6 +254,9 @@ func TestC17(t *testing.T) {
 			root, _ := gen.Root(t)
 			end := gen.Playout(t, root, 10, nil)
 			c := Case{FEN: end.FEN(), UCI: true}
+			if gen.Chance(t, 1, 2, "history") { // a game with recurrences (up to the third occurrence and beyond)
+				c = Case{FEN: root.FEN(), UCI: true, Moves: gen.HistoryOpt(t, root, 24, true)}
+			}
 			if err := checkCase(c, rec); err != nil {
 				rec.Fail("uci", err.Error(), c)
 				t.Fatalf("%v", err)
